@@ -106,6 +106,9 @@ func classifyErr(err error) string {
 
 var poisonCheck bool
 
+// entry points the parent switched off for this stream after repeated hangs
+var skipEntries = map[int]bool{}
+
 type worker struct {
 	env     *zygo.Zlisp // shared by the panic-search entry points
 	tieEnv  *zygo.Zlisp // compile-only environment of the model tie
@@ -557,6 +560,14 @@ func workerMain(st Stream, from, to int, progressPath, resultPath string, budget
 	entries := entriesFor(st.Name())
 	if only >= 0 {
 		entries = []int{only}
+	} else if len(skipEntries) > 0 {
+		var keep []int
+		for _, e := range entries {
+			if !skipEntries[e] {
+				keep = append(keep, e)
+			}
+		}
+		entries = keep
 	}
 	tie := st.Name() == "forms" || st.Name() == "mutants" || st.Name() == "infix" || strings.HasPrefix(st.Name(), "file:")
 	if only >= 0 {
